@@ -48,6 +48,14 @@ def scenario(rng, k, tier):
         for _ in range(rng.choice([1, 3, 10, 30]) if klass not in (1, 2) else (30 if klass == 1 else 3)):
             send(true_idx, true_idx >> 16)
             true_idx += rng.choice([1, 1, 2, 5, 3000, 3000, 9000]) if klass != 2 else rng.choice([1, 2])
+    late_first = None
+    if klass == 1:
+        # ... and the first packet after set_roc is a LATE one: one index was skipped just before (never sent, inside every window)
+        send(true_idx, true_idx >> 16)
+        late_first = true_idx + 1
+        true_idx += 2
+        send(true_idx, true_idx >> 16)
+        true_idx += 1
     if klass == 3:
         # klass 3: a running stream at ROC >= 1 with its sequence number in the lower half is told its own ROC again, and the
         # next packet is more than 2^15 ahead inside that ROC (index-advance path although the ROC does not change)
@@ -65,6 +73,11 @@ def scenario(rng, k, tier):
     elif klass == 2:
         r = nat + 1
     r = min(r, 0xfffffff0)
+    if k % 6 == 5 and r >= nat:
+        # the application corrects itself: a first request that no packet takes up, then the real one (which may equal the
+        # stream's current ROC): the later call replaces the earlier one
+        decoy = r + rng.choice([1, 2, 9])
+        L.append(f"setroc 1 {H(ssrc)} {H(decoy)}"); L.append(f"setroc 2 {H(ssrc)} {H(decoy)}")
     L.append(f"setroc 1 {H(ssrc)} {H(r)}"); L.append(f"setroc 2 {H(ssrc)} {H(r)}")
     behind = r < nat
     if klass == 3:
@@ -84,6 +97,9 @@ def scenario(rng, k, tier):
     stride = 4000 if tier == "quick" else 900
     pending = []
     first_refused = rng.choice([0, 0, 1, 1, 2, 3])
+    if late_first is not None and (late_first >> 16) == r:
+        send(late_first, r, first_refused)
+        first_refused = 0
     while true_idx < target:
         send(true_idx, true_idx >> 16, first_refused)
         first_refused = 0
@@ -109,7 +125,7 @@ def monitor(script, c):
     for n, l in enumerate(sl, 1):
         t = l.split()
         o = out.get(n, [])
-        if t[0] == "setroc" and t[1] == "1" and not set_seen:
+        if t[0] == "setroc" and t[1] == "1" and (not set_seen or hi is None):
             if len(o) > 2 and int(o[2], 16) != 0:
                 continue
             set_seen = True; r_set = int(t[3], 16)
